@@ -160,6 +160,9 @@ pub enum Op {
         body: Option<Body>,
         source: String,
     },
+    /// from the next pass on the caller passes another generator override in its options
+    /// (`Options::with_generator_override`; L1 only: the command line fixes it per session)
+    GeneratorOverride { name: Option<String> },
     /// the next pass runs with the fail-fast option (L1 only): it may stop at the first
     /// error, so only `bounded` and confinement are demanded of it; equality with a fresh
     /// run is demanded again at the pass after it
